@@ -139,8 +139,8 @@ func checkWriters(v uint64, tail []byte) {
 		r.Eval("direct:PutULe:"+rg, fmt.Sprint("PutULe", v, bl))
 		if real == model && real == vlib.Hex(want) {
 			r.TieOK()
-		} else {
-			prop("direct-putule", "PutULe", real)
+		} else { // PutULe is the model's putULe by name, but no serialiser of this property calls it (users: the UTXO records, C10)
+			r.TieFail("tie-direct-PutULe", fmt.Sprintf("btc.PutULe(buf[%d], %d) (%s range) gives %s; model putULe / the CompactSize encoding is %s", bl, v, rg, real, vlib.Hex(want)), doc)
 		}
 	}
 	// VLenSize
@@ -207,15 +207,17 @@ func bytesPerUnit(class string) int {
 	return 1
 }
 
-// rangeValues: values for one field — the ends of the 1- and 3-byte ranges, the start of the 5-byte range, and values
-// INSIDE the 5-byte range (low half zero, low half all ones, random), as far as `budget` bytes of wire data allow.
+// rangeValues: values for one field — the ends of the 1- and 3-byte ranges and the first value of the 5-byte range
+// always (whatever they cost: 65536 inputs are 2.7 MB), further values around and INSIDE the 5-byte range (low half zero,
+// low half all ones, random; in the thorough tier also above 2^20) as far as `budget` bytes of wire data allow.
 // Ascending, so that the smallest failing case is the one reported.
 func rangeValues(g *vlib.Rng, class string, budget int) []uint64 {
 	max := uint64(budget / bytesPerUnit(class))
-	cand := []uint64{252, 253, 0xffff, 0x10000, 0x10001, 0x10000 + uint64(1+g.Intn(0xfffe)), 0x1ffff, 0x20000, 0x20000 + uint64(g.Intn(0x20000)), 0x30000 + uint64(g.Intn(0x10000))<<2}
+	cand := []uint64{252, 253, 0xffff, 0x10000, 0x10001, 0x10000 + uint64(2+g.Intn(0xfffd)), 0x1ffff, 0x20000, 0x20000 + uint64(g.Intn(0x20000)), 0x30000 + uint64(g.Intn(0x10000))<<2,
+		0x100000 + uint64(g.Intn(0x100000)), 0x200000 + uint64(g.Intn(0x80000))}
 	var out []uint64
 	for _, v := range cand {
-		if v <= max {
+		if v <= max || v == 252 || v == 253 || v == 0x10000 {
 			out = append(out, v)
 		}
 	}
@@ -304,6 +306,14 @@ func prefixOffset(b []byte, v uint64) int {
 func boundaryStream(g *vlib.Rng) {
 	budget := r.N(300000, 3000000) // wire bytes one case may take
 	side := 0
+	for round := r.N(1, 3); round > 0; round-- {
+		boundaryRound(g, budget, &side)
+	}
+}
+
+func boundaryRound(g *vlib.Rng, budget int, sidep *int) {
+	side := *sidep
+	defer func() { *sidep = side }()
 	for ci, class := range fieldClasses {
 		for vi, v := range rangeValues(g, class, budget) {
 			wit := (ci+vi)%2 == 0
@@ -312,6 +322,9 @@ func boundaryStream(g *vlib.Rng) {
 			kind := "range:" + class + ":" + csRange(v)
 			checkTx(kind, b)
 			side++
+			if len(b) > 1<<20 {
+				continue // megabytes of inputs: the case itself only
+			}
 			// the neighbourhood: a cut inside / just before the end, trailing bytes, the length prefix itself one up / one down
 			switch side % 3 {
 			case 0:
